@@ -1140,7 +1140,10 @@ pub fn c13_pair(ctx: &mut Ctx, law: &str, base: &Term, variant: &Term, col_may_a
     return;
   }
   let mut mapped = false;
-  for columns in [true, false] {
+  // a variant that contains a CachedSource is asked everything twice: the second answers come
+  // from what the first calls stored
+  let settings: &[bool] = if has_cached(variant) { &[true, false, true, false] } else { &[true, false] };
+  for &columns in settings {
     let a = attribution_by_map(&ob, &tb, columns);
     let b = attribution_by_map(&ov, &tv, columns);
     ctx.transitions += 2;
